@@ -10,7 +10,7 @@ from vlib.harness import CheckBase, Verdict, VERIF
 FAULTS = ["flip-id", "flip-data", "flip-idmark", "flip-datamark", "flip-gap", "slip", "zero-run", "truncate",
           "kill-id-sync", "kill-data-sync", "kill-pair", "kill-pair", "deleted-damaged", "deleted-damaged",
           "badcrc-damaged", "edge-all-tracks", "edge-all-tracks", "stray-cyl", "stray-cyl", "stray-head",
-          "one-data-bit", "one-data-bit", "one-data-bit"]
+          "one-data-bit", "one-data-bit", "one-data-bit", "id-only", "id-only", "id-only", "id-only"]
 
 
 @st.composite
@@ -21,7 +21,9 @@ def case_st(draw):
     tracks = draw(st.integers(2, 4))
     nsides = draw(st.sampled_from([1, 1, 2]))
     faults = []
-    for _ in range(draw(st.integers(1, 5))):
+    # mostly one or two faults: several independent faults usually make the loader refuse the whole image (unequal
+    # sector counts), and a refused image shows nothing about the decoder
+    for _ in range(draw(st.sampled_from([1, 1, 1, 1, 2, 2, 3, 5]))):
         f = {"kind": draw(st.sampled_from(FAULTS)), "track": draw(st.integers(0, tracks - 1)),
              "side": draw(st.integers(0, nsides - 1)), "sector": draw(st.integers(0, spt - 1)),
              "off": draw(st.integers(0, 5000)), "n": draw(st.integers(1, 7)), "bits": draw(st.integers(1, 3))}
@@ -36,9 +38,10 @@ class C06(CheckBase):
     level = "exploration"
     variants = ("dbg", "asan", "fuzz")
     rule = ("(1) image level (Hypothesis): a valid 2-4 track HFE v1/v3 or HxC MFM image with known sector contents "
-            "(every sector distinct) receives a drawn fault set of 1-5 faults: bit flips inside a chosen sector's ID "
+            "(every sector distinct) receives a drawn fault set of 1-5 faults (usually 1 or 2): bit flips inside a chosen sector's ID "
             "field / data field / address marks / gap, 1-7-cell slips (insert or delete), zeroed runs, wiped sync "
             "runs, truncation of a track, records with valid CRCs whose ID names another cylinder or the other head; "
+            "an ID field with no record behind it and only 0-7 gap bytes before the next sector; "
             "exactly one flipped data bit inside a CRC-covered field (such a sector must not be readable at all); "
             "then dump-sector is run for EVERY (side, track, sector): it must fail or "
             "print exactly the bytes recorded under that address.  (2) decoder level (libFuzzer target fuzz_track, "
@@ -105,6 +108,15 @@ class C06(CheckBase):
                         quirks[f["sector"]] = {"data": bytes(bad)}
                         if f["kind"] == "deleted-damaged":
                             quirks[f["sector"]]["mark"] = 0xF8
+                    if f["kind"] == "id-only" and f["bits"] >= 2:
+                        # on EVERY track the last-but-one record is an ID field with no record behind it and 0-1 gap
+                        # bytes before the last sector (all tracks keep equal counts and no numbering gap appears, so
+                        # the image as a whole stays acceptable): a read of that address must fail everywhere
+                        quirks.setdefault(spt - 2, {}).update({"id_only": True, "id_gap": f["n"] % 2})
+                    elif f["kind"] == "id-only" and f["track"] == t and min(f["side"], nsides - 1) == sd:
+                        # the ID field of this sector is recorded but no record follows: after 0-7 gap bytes the next
+                        # sector starts.  A read of this address must fail; the next sector's data is not this one's.
+                        quirks.setdefault(f["sector"], {}).update({"id_only": True, "id_gap": f["n"] % 8})
                     if f["kind"] in ("stray-cyl", "stray-head") and f["track"] == t and min(f["side"], nsides - 1) == sd:
                         # a record with VALID CRCs whose ID names another cylinder / the other head (copy protection,
                         # or a drive that wrote while mis-stepped): a read of the address it names must still return
@@ -219,6 +231,14 @@ class C06(CheckBase):
                 hit_field = True
             elif k in ("deleted-damaged", "badcrc-damaged", "stray-cyl", "stray-head"):
                 hit_field = True          # applied when the track was encoded
+            elif k == "id-only":
+                hit_field = True
+                if f["bits"] >= 2:
+                    for t2 in range(case["tracks"]):
+                        for sd2 in range(case["nsides"]):
+                            self.must_fail.add((sd2, t2, case["spt"] - 2))
+                else:
+                    self.must_fail.add((sd, t, f["sector"]))
             elif k == "kill-pair":
                 # the data field of this sector AND the ID field of the physically next sector vanish
                 for q in range(max(0, ds - 16 * 6), min(len(c), ds + 64)):
@@ -246,6 +266,8 @@ class C06(CheckBase):
             v.nontrivial = True
         for f in case["faults"]:
             v.classes.append("fault-" + f["kind"])
+            if f["kind"] == "id-only" and f["bits"] >= 2:
+                v.classes.append("id-only-every-track-gap<=1-%s-%dfaults" % (case["encoding"], min(len(case["faults"]), 3)))
         v.classes.append(case["kind"] + "-" + case["encoding"])
         spt, tracks, nsides = case["spt"], case["tracks"], case["nsides"]
         if case["kind"] == "mfm":
@@ -271,7 +293,7 @@ class C06(CheckBase):
                             continue
                         if (sd, t, s_) in self.must_fail:
                             v.fail("C06/damaged-sector-read-as-good", "dump-sector %d %d %d succeeded although one data "
-                                   "bit inside a CRC-covered field of that sector was flipped (%s %s)"
+                                   "bit of a CRC-covered field was flipped / no record was recorded for that ID at all (%s %s)"
                                    % (sd, t, s_, case["kind"], case["encoding"]), r.brief())
                             return v
                         lba = t * spt + s_
